@@ -106,9 +106,13 @@ def r06_4(prog, out):
             if start is None:
                 out.undecided(key, bi.loc(a.poll_bb), "continuation after the wake-up not resolved")
                 continue
-            labels = const_walk(bi, start, lambda bb: "pulls" if bb in pulls else None)
-            if labels == {"pulls"}:
-                out.holds(key, bi.loc(a.poll_bb), "after the signal fires the loop pulls again")
+            # a consumer that will not pull now (it has to wait for something else first) may hand the wake-up on instead:
+            # notifying the message signal again is as good as pulling
+            R = roles(prog)
+            handoff = {e.bb for e in prog.effects(cl.body) if e.touches(R.signal) and e.kind in ("notify_one", "notify_waiters")}
+            labels = const_walk(bi, start, lambda bb: "pulls" if bb in pulls else ("hands-on" if bb in handoff else None))
+            if labels and labels <= {"pulls", "hands-on"}:
+                out.holds(key, bi.loc(a.poll_bb), "after the signal fires the loop pulls again%s" % (" (or hands the wake-up on)" if "hands-on" in labels else ""))
             elif "unknown" in labels:
                 out.undecided(key, bi.loc(a.poll_bb), "continuation too complex")
             else:
